@@ -434,8 +434,8 @@ func (d Driver) Run(c *core.Ctx) error {
 		r.runGen("pent", tlc.Opts{Module: "BoolOps", Config: cfg(4, 5, 1, "random", 500, "bool", false), Seed: c.Seed, Timeout: 30 * time.Minute})
 		r.runGen("two", tlc.Opts{Module: "BoolOps", Config: cfg(3, 4, 2, "random", 120, "bool", false), Seed: c.Seed + 1, Timeout: 30 * time.Minute})
 		r.runGen("hex", tlc.Opts{Module: "BoolOps", Config: cfg(6, 6, 1, "random", 250, "bool", false), Seed: c.Seed + 2, Timeout: 30 * time.Minute})
-		r.runCurved(tlc.Opts{Module: "CurvedOps", Config: ccfg(4, 3, 150), Seed: c.Seed + 3, Timeout: 30 * time.Minute})
-		r.runCurved(tlc.Opts{Module: "CurvedOps", Config: ccfg(5, 2, 120), Seed: c.Seed + 4, Timeout: 30 * time.Minute})
+		r.runCurved(tlc.Opts{Module: "CurvedOps", Config: ccfg(4, 3, 60), Seed: c.Seed + 3, Timeout: 30 * time.Minute})
+		r.runCurved(tlc.Opts{Module: "CurvedOps", Config: ccfg(5, 2, 40), Seed: c.Seed + 4, Timeout: 30 * time.Minute})
 	} else {
 		r.runGen("tri", tlc.Opts{Module: "BoolOps", Config: cfg(2, 3, 1, "random", 240, "bool", false), Seed: 7777})         // a fixed 57 600-pair sample of the tri space (deterministic: known findings per input)
 		r.runGen("pent", tlc.Opts{Module: "BoolOps", Config: cfg(4, 5, 1, "random", 130, "bool", false), Seed: c.Seed + 1}) // 16 900 pentagon pairs on 5x5
